@@ -10,12 +10,16 @@ CFG = dict(
     rule="each case = 1-4 disjoint IPv4 pools (1-4 blocks of /26../30, allowedUses subsets of Workload/Tunnel/LoadBalancer, node and "
          "namespace selectors (conjunctions of ==, !=, has, !has), disabled and Manual pools), 2-3 labelled nodes, 0-5 IP reservations "
          "(single addresses, pairs, half blocks, whole blocks, two blocks; overlapping), an IPAMConfig (StrictAffinity / "
-         "AutoAllocateBlocks / MaxBlocksPerHost) and a history of 30-50 calls of the REAL ipamClient on the in-memory CAS backend: "
+         "AutoAllocateBlocks / MaxBlocksPerHost) and a history of 25-40 calls of the REAL ipamClient on the in-memory CAS backend: "
          "AutoAssign (node, use, namespace labels or nil, requested pools incl. disabled / unknown ones, per-request block limit, "
-         "1-9 addresses), ReleaseIPs, ReleaseByHandle.  Every fifth case is the boundary stream (many reservations, many requested "
-         "pools).  Compared per operation: returned addresses with masks + error class + datastore summary (blocks with affinity "
-         "and size, affinities); at the end the full datastore.  Non-trivial = at least one fully served AutoAssign, one failed or "
-         "partial AutoAssign and one effective release.  Distinct by (config, operations).",
+         "1-9 addresses), ReleaseIPs, ReleaseByHandle, ReleaseAffinity.  A quarter of the AutoAssign calls run on the membackend "
+         "scheduler and are PREEMPTED once (after a random number of datastore accesses, at the latest when about to write a block "
+         "for the first time) by 1-3 complete operations: ReleaseAffinity of one of the caller's blocks (mustBeEmpty or not), "
+         "AutoAssign / ReleaseByHandle of another node; the model replays the same schedule (run_upto).  Every fifth case is the "
+         "boundary stream (many reservations, many requested pools).  Compared per operation: returned addresses with masks + error "
+         "class + datastore summary (blocks with affinity and size, affinities) at its start and at its return; at the end the full "
+         "datastore.  Non-trivial = at least one fully served AutoAssign, one failed or partial AutoAssign and one effective release.  "
+         "Distinct by (config, schedule).",
     trusted=["Coq 8.16.1 kernel + vm_compute",
              "hand-written model coq/theories/C20/Model.v (+ C19/Model.v, Common/Cas.v) tied to libcalico-go/lib/ipam by this correspondence run",
              "in-memory CAS backend harness/C19/cmd/membackend; fake PoolAccessor (enabled = the real clientv3.filterIPPool) and fake "
